@@ -9,11 +9,17 @@ import PromVerif.Lemmas.OMHist
 namespace PromVerif.Lemmas.OM
 open PromVerif.Py PromVerif.Model.ParseCore PromVerif.Model.Validation PromVerif.Model.OMParse PromVerif.Generated.OMParse
 
-/-- what `_check_histogram` needs of a sample list of family `n`: plain samples; a sample whose name continues `n`
-with `_bucket` is exactly `n_bucket` and carries an `le` label -/
+/-- a native-histogram sample as far as `_check_histogram` is concerned: no value; its name does not continue the
+family name with `_bucket` (no `le` look-up) or `_gsum` (no `value < 0`) -/
+def NhIn (n : Str) (s : OSample) : Prop :=
+  s.value = none ∧ s.name.drop n.length ≠ sBucket ∧ s.name.drop n.length ≠ sGsum
+
+/-- what `_check_histogram` needs of a sample list of family `n`: plain samples — one whose name continues `n` with
+`_bucket` is exactly `n_bucket` and carries an `le` label — and native-histogram samples as above -/
 def HistOK (n : Str) (samples : List OSample) : Prop :=
-  ∀ s ∈ samples, Plain s ∧
-    (s.name.drop n.length = sBucket → s.name = n ++ sBucket ∧ ∃ l le, s.labels = some l ∧ dictGet l sLe = some le)
+  ∀ s ∈ samples,
+    (Plain s ∧ (s.name.drop n.length = sBucket → s.name = n ++ sBucket ∧ ∃ l le, s.labels = some l ∧ dictGet l sLe = some le))
+    ∨ NhIn n s
 
 theorem safe_doChecks (P : Params) (h : HSt) (hv : h.value.isSome = true) : Safe (doChecks P h) := by
   unfold doChecks
@@ -113,6 +119,42 @@ theorem safe_histStep (P : Params) (n : Str) (h : HSt) (s : OSample) (hp : Plain
               exact ⟨safe_ok _, fun h' hh => by cases hh; exact hv1⟩
             · exact ⟨safe_ok _, fun h' hh => by cases hh; exact hv1⟩
 
+theorem safe_histStep_nh (P : Params) (n : Str) (h : HSt) (s : OSample) (hs : NhIn n s) (hv : h.value.isSome = true) :
+    Safe (histStep P n h s) ∧ ∀ h', histStep P n h s = .ok h' → h'.value.isSome = true := by
+  obtain ⟨hval, hnb, hng⟩ := hs
+  have hg : groupForSample s n tHistogram = .ok s.labels := by
+    unfold groupForSample
+    rw [if_neg not_info, not_summary]
+    simp only [Bool.false_and, Bool.false_eq_true, if_false, if_neg not_stateset]
+    have c : ¬ ((tHistogram == tHistogram || tHistogram == tGaugeHistogram) && s.name == n ++ sBucket) = true := by
+      intro c
+      have := (Bool.and_eq_true _ _ ▸ c : _ ∧ _).2
+      have e : s.name = n ++ sBucket := by simpa using this
+      exact hnb (by rw [e]; simp)
+    rw [if_neg c]
+  unfold histStep
+  rw [hg]
+  dsimp only
+  by_cases c0 : (s.name.drop n.length).isEmpty = true
+  · rw [if_pos c0]; exact ⟨safe_ok _, fun h' hh => by cases hh; exact hv⟩
+  · rw [if_neg c0]
+    obtain ⟨hrs, hrv⟩ := safe_histReset P h s.labels s.ts hv
+    cases hr : histReset P h s.labels s.ts with
+    | error e => exact ⟨fun e' he' => by cases he'; exact hrs e hr, fun h' hh => by cases hh⟩
+    | ok h1 =>
+      dsimp only
+      have hv1 := hrv h1 hr
+      have c1 : ¬ (s.name.drop n.length == sBucket) = true := by intro e; exact hnb (by simpa using e)
+      have c4 : ¬ (s.name.drop n.length == sGsum) = true := by intro e; exact hng (by simpa using e)
+      rw [if_neg c1]
+      split
+      · exact ⟨safe_ok _, fun h' hh => by cases hh; exact hv1⟩
+      · split
+        · exact ⟨safe_ok _, fun h' hh => by cases hh; exact hv1⟩
+        · first
+            | (rw [if_neg c4]; exact ⟨safe_ok _, fun h' hh => by cases hh; exact hv1⟩)
+            | exact ⟨safe_ok _, fun h' hh => by cases hh; exact hv1⟩
+
 theorem safe_histLoop (P : Params) (n : Str) : ∀ (samples : List OSample) (h : HSt), HistOK n samples → h.value.isSome = true →
     Safe (histLoop P n h samples) ∧ ∀ h', histLoop P n h samples = .ok h' → h'.value.isSome = true := by
   intro samples
@@ -120,8 +162,11 @@ theorem safe_histLoop (P : Params) (n : Str) : ∀ (samples : List OSample) (h :
   | nil => intro h _ hv; exact ⟨safe_ok _, fun h' hh => by cases hh; exact hv⟩
   | cons s ss ih =>
     intro h hok hv
-    obtain ⟨hp, hb⟩ := hok s (List.mem_cons_self ..)
-    obtain ⟨hs, hsv⟩ := safe_histStep P n h s hp hb hv
+    have hstep : Safe (histStep P n h s) ∧ ∀ h', histStep P n h s = .ok h' → h'.value.isSome = true := by
+      rcases hok s (List.mem_cons_self ..) with ⟨hp, hb⟩ | hnh
+      · exact safe_histStep P n h s hp hb hv
+      · exact safe_histStep_nh P n h s hnh hv
+    obtain ⟨hs, hsv⟩ := hstep
     unfold histLoop
     cases hst : histStep P n h s with
     | error e => exact ⟨fun e' he' => by cases he'; exact hs e hst, fun h' hh => by cases hh⟩
